@@ -159,6 +159,13 @@ pub(crate) fn fri_proof_of_work<
     config: &FriConfig,
 ) -> F {
     let min_leading_zeros = config.proof_of_work_bits + (64 - F::order().bits()) as u32;
+    #[cfg(feature = "verif_hooks")]
+    if let Some(w) = crate::verif_hooks::knobs::get().pow_witness {
+        let w = F::from_canonical_u64(w);
+        challenger.observe_element(w);
+        let _ = challenger.get_challenge();
+        return w;
+    }
 
     // The easiest implementation would be repeatedly clone our Challenger. With each clone, we'd
     // observe an incrementing PoW witness, then get the PoW response. If it contained sufficient
